@@ -31,7 +31,7 @@ impl Prop for C07T {
         "C07"
     }
     fn budget(&self, thorough: bool) -> u64 {
-        if thorough { 3_000_000 } else { 200_000 }
+        if thorough { 8_000_000 } else { 800_000 }
     }
     fn generate(&self, seed: u64, thorough: bool) -> Scenario {
         let mut rng = Rng::new(seed);
